@@ -45,6 +45,9 @@ class Exec:
         self.delivered = {}  # wait serial -> first value delivered by resume() while WAITING
         self.listener = None
         self.harness_errors = []
+        self.capture = None  # None, or a medium name: checkpoints are taken at every state entry
+        self.checkpoints = []  # dicts {index, n_trace, state, waits, data | error}
+        self.wait_base = 0  # waits that happened before this incarnation (restored runs)
 
     # -- lifecycle ---------------------------------------------------------------------------
     def __enter__(self):
@@ -114,10 +117,49 @@ class Exec:
     def launch_task(self):
         with self.loop.as_running():
             self.task = self.loop.create_task(self.proc.step_until_terminated())
+            self.task._pv_owned = True
 
     def _entered(self, proc, _hook, from_state):
         frm = from_state.LABEL.value if from_state is not None else None
         self.transitions.append((frm, proc.state.value, len(self.samples)))
+        if self.capture is not None:
+            self.checkpoint('entered')
+
+    def checkpoint(self, why):
+        """Serialise the process right now (so later mutation of the live process cannot show)."""
+        from . import media
+
+        proc = self.proc
+        rec = {
+            'index': len(self.checkpoints),
+            'why': why,
+            'n_trace': len(self.world.trace.get(proc.pid, [])),
+            'state': proc.state.value,
+            'paused': proc.paused,
+            'waits': self._wait_serial(),
+        }
+        try:
+            rec['data'] = media.save(proc, self.capture)
+        except Exception as exc:  # noqa: BLE001 - whether saving may fail here is the oracle's business
+            rec['error'] = exc
+        self.checkpoints.append(rec)
+        return rec
+
+    def start_from(self, data, medium, wait_base=0, create_task=True, loader=None):
+        """Restore a process from serialised ``data`` into this (fresh) loop and attach the monitors."""
+        from . import media
+
+        with self.loop.as_running():
+            proc = media.load(data, medium, self.loop, loader=loader)
+        pid = proc.pid
+        self.world.incarnation[pid] = self.world.incarnation.get(pid, 0) + 1
+        self.wait_base = wait_base
+        self.attach(proc)
+        self.n_waits_resumed = wait_base - 1 if proc.state.value == 'waiting' else wait_base
+        self.sample('restored')
+        if create_task and not proc.has_terminated():
+            self.launch_task()
+        return proc
 
     # -- observation -------------------------------------------------------------------------
     def sample(self, why):
@@ -199,8 +241,9 @@ class Exec:
             serial = self._wait_serial()
             self.delivered.setdefault(serial, ev[1] if len(ev) > 1 else NOVALUE)
             self.n_waits_resumed = max(self.n_waits_resumed, serial)
+        arg = ev[1] if len(ev) > 1 else (NOVALUE if kind == 'resume' else None)
         with self.loop.as_running():
-            rec = control(self.proc, kind, ev[1] if len(ev) > 1 else None, who=who)
+            rec = control(self.proc, kind, arg, who=who)
         rec['phase'] = phase
         rec['epoch'] = epoch
         rec['sample'] = len(self.samples)
@@ -252,7 +295,7 @@ class Exec:
                 self.drain()
 
     def _wait_serial(self):
-        return sum(1 for t in self.transitions if t[1] == 'waiting')
+        return self.wait_base + sum(1 for t in self.transitions if t[1] == 'waiting')
 
     # -- results -----------------------------------------------------------------------------
     def views(self):
